@@ -94,7 +94,7 @@ def reference(spec):
 def policy_row(res_policy, mdp, view, s_label):
     """dict action-index -> prob from the returned policy at a state."""
     dist = res_policy.action_dist(s_label)
-    return {view.aidx[a]: float(p) for a, p in dist.items()}
+    return {view.aidx[a]: float(p) for a, p in dist.items() if a in view.aidx}   # (foreign names are reported by the caller)
 
 
 def check_result(ctx, spec, cfg, res, mdp, view, name, refpack=None, pfx="C01"):
@@ -124,6 +124,10 @@ def check_result(ctx, spec, cfg, res, mdp, view, name, refpack=None, pfx="C01"):
     # policy well-formedness everywhere (incl. U states): probability vector on available actions
     rows = {}
     for s in states:
+        dist_ = res.policy.action_dist(view.S[s])
+        foreign = [a for a, p in dist_.items() if a not in view.aidx]
+        ctx.check(not foreign, f"{pfx}.{name}.policy_names_foreign_action",
+                  lambda: f"state {s}: the policy names {foreign!r}, which are not actions of this MDP ({list(view.aidx)!r})")
         row = policy_row(res.policy, mdp, view, view.S[s])
         rows[s] = row
         if ref.absorbing[s]:
@@ -366,6 +370,14 @@ def batch_cases(draw, tier="quick"):
                         o[2] = draw(st.integers(-3, 3))
                     else:
                         o[2] = draw(st.integers(-3, 0))
+        # members of a batch share a shape, not a vocabulary: other action / state labels (other scheme, other order)
+        from vpm.labels import enc, state_labels, action_labels
+        if draw(st.booleans()):
+            al = action_labels(draw(st.sampled_from(["int", "str", "tuple"])), sp["m"])
+            sp["alabels"] = [enc(x) for x in draw(st.permutations(al))]
+        if draw(st.integers(0, 2)) == 0:
+            sl = state_labels(draw(st.sampled_from(["int", "str", "tuple"])), sp["n"])
+            sp["slabels"] = [enc(x) for x in draw(st.permutations(sl))]
         specs.append(sp)
     cfg = draw(_cfg("pi_batch"))
     cfg["tiny_cap"] = 0
